@@ -47,6 +47,10 @@ func c04Base(variant int) gen.S {
 						gen.S{"name": "limit", "in": "query", "schema": gen.S{"type": "integer", "minimum": 1.0, "maximum": 100.0, "default": 20.0}, "examples": gen.S{"small": gen.S{"value": 5.0}}},
 						gen.S{"name": "filter", "in": "query", "style": "deepObject", "explode": true, "schema": gen.S{"type": "object", "properties": gen.S{"name": str()}}},
 						gen.S{"name": "ids", "in": "query", "style": "pipeDelimited", "explode": false, "schema": gen.S{"type": "array", "items": gen.S{"type": "integer"}}},
+						// styles written out with explode left to its default
+						gen.S{"name": "deep", "in": "query", "style": "deepObject", "schema": gen.S{"type": "object", "properties": gen.S{"name": str()}}},
+						gen.S{"name": "formed", "in": "query", "style": "form", "schema": gen.S{"type": "array", "items": str()}},
+						gen.S{"name": "spaced", "in": "query", "style": "spaceDelimited", "schema": gen.S{"type": "array", "items": str()}},
 						gen.S{"name": "q", "in": "query", "content": gen.S{"application/json": gen.S{"schema": gen.S{"type": "object", "properties": gen.S{"k": str()}}}}},
 						gen.S{"$ref": "#/components/parameters/Session"}),
 					"responses": gen.S{
@@ -293,6 +297,22 @@ func c04Rules() []c04rule {
 	add("missing-server-url", "server", set("url", ""))
 	add("server-undeclared-variable", "server", func(l c04loc) bool { u, _ := l.obj["url"].(string); l.obj["url"] = u + "/{undeclared}"; return true })
 	add("serverVariable-missing-default", "serverVariable", del("default"))
+	add("server-variable-not-used-in-url", "server", func(l c04loc) bool {
+		vars, ok := l.obj["variables"].(gen.S)
+		if !ok {
+			return false
+		}
+		vars["unused"] = gen.S{"default": "u"}
+		return true
+	})
+	add("server-url-variable-with-blanks", "server", func(l c04loc) bool {
+		u, _ := l.obj["url"].(string)
+		if _, ok := l.obj["variables"].(gen.S); !ok || !strings.Contains(u, "{env}") {
+			return false
+		}
+		l.obj["url"] = strings.Replace(u, "{env}", "{ env }", 1)
+		return true
+	})
 	add("missing-tag-name", "tag", del("name"))
 	add("missing-operation-responses", "operation", del("responses"))
 	add("empty-responses", "operation", set("responses", gen.S{}))
@@ -599,6 +619,9 @@ func c04OptionSets() []c04optset {
 	}
 }
 
+// c04NotImplemented: catalogue rules this library version implements nowhere (observed: no location rejects them).
+var c04NotImplemented = map[string]bool{"missing-tag-name": true, "path-parameter-renamed": true, "security-requirement-undeclared-scheme": true}
+
 type c04Witness struct {
 	Base     int    `json:"base_variant"`
 	Rule     string `json:"rule"`
@@ -622,13 +645,15 @@ func init() {
 		Exhaustive: func(string) bool { return true },
 		Run:        runC04,
 		Finish: func(m *core.Merged) {
-			// The property speaks of "the rules the library enforces": a catalogue rule that is rejected at NO location
-			// under the default options is not such a rule; it is listed in evidence and carries no verdict.
+			// The property speaks of "the rules the library enforces". Three catalogue rules are rejected at NO location on the
+			// tree this check was written against (c04NotImplemented): they are not such rules, are listed in evidence and carry
+			// no verdict as long as they stay rejected nowhere. Every other rule must be rejected everywhere: a rule whose
+			// enforcement disappears altogether is a violation, not a quiet move to this list.
 			var keep []core.Violation
 			notEnforced := map[string]bool{}
 			for _, v := range m.Violations {
 				r := v.Features["rule"]
-				if v.Features["kind"] == "violation_accepted" && r != "" && m.Cover["rule_rejected_somewhere"][r] == 0 {
+				if v.Features["kind"] == "violation_accepted" && c04NotImplemented[r] && m.Cover["rule_rejected_somewhere"][r] == 0 {
 					notEnforced[r] = true
 					continue
 				}
